@@ -286,3 +286,4 @@ MANIFEST = {
             'enumerating back end (cross-checked against CBC in the thorough tier).',
 }
 MANIFEST['text'] += (' ' + '12% of the cases embed a tiny instance under sparse two- and three-digit ids (stable set enumerated on the tiny instance, real CBC on the big file) and 8% are large instances where the printed matching must be valid and unblocked.')
+MANIFEST['text'] += (' ' + "6% of the cases are size-gadget instances (a tight lecturer ranks its last admissible applicants in one tie, some of whom have an outside option: stable matchings of different sizes, the tie visible or not among one project's applicants) under -maxsize / -minsize; a class has lecturer ties only; embedded instances use id maps beyond 256 per side and maps whose decimal spellings concatenate identically.")
